@@ -280,11 +280,23 @@ CLAIMS = {
              "reads Complete only if it is the Complete code), clear_kills_header_first, bl_designates_valid / "
              "bl_call_designates_valid (the bootloader query only designates validating slots), valid_bridge (the "
              "session model's validation = the C14 model's). Panic-freedom of the post-reboot calls is C17's robust_calls. "
-             "On the real code: crash and torn-write enumeration inside every operation kind with post-reboot sweep.",
+             "C06c transports the resume theorem to TORN programs at flash level: crash_resume_resend_torn_first_L2 "
+             "(a tear inside the first program of a delivery — every data program and every parity-block program — any "
+             "prefix, any bit subset: recovery succeeds and the fragment sent again is answered as uninterrupted, with the "
+             "same abstraction), crash_resume_resend_torn_L2_partial / crash_resume_continue_torn_L2_partial (any torn "
+             "program outside finish, provided the written-mark bytes and the matrix diagonal bytes read as before — the "
+             "two excluded cases are real: torn_mark_hazard, torn_row_hazard). "
+             "On the real code: crash and torn-write enumeration inside every operation kind with post-reboot sweep (d5w), "
+             "and torn programs inside fragment handling followed by reboot, recovery, the rest of the transmission and the "
+             "final check, with the losses placed in the 64 bytes the CRC does not cover (d5t).",
         note="Hypotheses: slot size >= 17412, erase block >= 28 bytes, at least 2 slots. The clause 'if written by the "
              "interrupted session, equals the transmitted image' is checked by the harness (sweep compares the session's "
              "slot with the image) and follows from C01/C06 outside the two known crash windows; inside them only the CRC "
-             "protects the image (CRC is not injective), so equality is not claimed there. Model-level observations: "
+             "protects the image (CRC is not injective), so equality is not claimed there. KNOWN FINDINGS (genuine, "
+             "replayed on the real code, no small safe repair; known_findings.json): torn-site=row-diagonal-byte (a tear "
+             "of the matrix row's last byte leaves a different row reading as present), torn-site=finish and "
+             "torn-site=parity-block-lost (the C06/C18 findings) yield a falsely complete image when the wrongly rebuilt "
+             "fragments lie in image bytes 4..68. Model-level observations: "
              "CompleteValid alone is not preserved by the status marks (hence the word-level invariant); "
              "check_and_mark_done does not check the header kind (the session invariant supplies it).",
         design_ref="DESIGN.md section 6 (C04)"),
@@ -303,9 +315,11 @@ CLAIMS = {
              "power loss at every mutating-op boundary.",
         note="Flash level, naive back-end: naive_start_establishes + naive_handle_segment_refines + complete_iff_peel / "
              "complete_iff_peel_session are full theorems (every genuine fragment is accepted, the session invariant NInv "
-             "is kept, completion exactly at the peeling closure). The comparison with the deprecated crate is "
-             "naive_eq_orig_model_partial: the original side is its mask-level machine (its flash-level refinement is not "
-             "proved; D8 compares the two crates on the same deliveries). Row existence is a hypothesis of the session "
+             "is kept, completion exactly at the peeling closure). Deprecated crate at flash level: orig_start_establishes "
+             "+ orig_handle_segment_refines (its write_segment + repair loop refines the same mask machine, invariant "
+             "OInv) and naive_eq_orig (FULL: both flash-level models, started on their devices, succeed on every delivery "
+             "of a sequence of genuine fragments inside both scans, report completion at the same deliveries and end with "
+             "the same data-region contents); the earlier _partial forms are kept beside it. Row existence is a hypothesis of the session "
              "theorems (C10's termination provides it without force-full-r). Defects fixed in /repo: naive parity count "
              "not clamped; deprecated crate's duplicate check read 256 bytes.",
         design_ref="DESIGN.md section 6 (C19)"),
